@@ -56,9 +56,18 @@ class Loop:
         return "for %s in [%s %s %s) step %s" % (self.name, self.lo, self.cmp, self.hi, self.step)
 
 
+_SEQ = [0]
+
+
+def _next_seq():
+    _SEQ[0] += 1
+    return _SEQ[0]
+
+
 class Access:
     def __init__(self, kind, base, idx, path, node, line, guards, loops, op=None, value=None,
                  value_node=None, base_node=None):
+        self.seq = _next_seq()          # order in which the scanner met it (program order, also across helper bodies it looked into)
         self.kind, self.base, self.idx, self.path, self.node, self.line = kind, base, idx, path, node, line
         self.guards, self.loops, self.op, self.value, self.value_node = guards, loops, op, value, value_node
         self.base_node = base_node
@@ -73,6 +82,7 @@ class Access:
 
 class Call:
     def __init__(self, callee, node, args, arg_nodes, obj, line, guards, loops, sig=None):
+        self.seq = _next_seq()
         self.callee, self.node, self.args, self.arg_nodes, self.obj = callee, node, args, arg_nodes, obj
         self.line, self.guards, self.loops, self.sig = line, guards, loops, sig
 
@@ -131,6 +141,7 @@ class Scanner:
         self.ptr_alias = {}        # local pointer decl -> (array text, offset): T* p = &a[e]
         self.ref_alias = {}        # local reference decl -> (base, idx, path): T& r = a[e] / obj.field
         self.track_all = False     # follow multiply-written scalar locals everywhere (always done inside inlined helpers)
+        self.const_arrays = {}     # const local array / std::array with a brace initialiser -> list of element values
         self.struct_vals = {}      # (local struct decl, field) -> value last stored to it on the straight line (for whole-struct fills)
         self.iter_alias = {}       # iterator local walking a container in a counted loop -> (base, idx tuple): *it is base[idx]
         self.cur = {}              # scalar local written more than once -> (current value | None, guard depth, loop depth at its declaration)
@@ -177,6 +188,17 @@ class Scanner:
                 # a field of a stencil-table entry: named after the table, not after the local it was copied to
                 if self._elem_of(n["c"][0]) == "_hinfo":
                     return tr.sym("h." + n["member"]["name"])
+        if k == "ArraySubscriptExpr" or (k == "CXXOperatorCallExpr" and n.get("op") == "[]"):
+            bnode = A.strip(n["c"][0] if k == "ArraySubscriptExpr" else n["args"][0])
+            bd = A.declref(bnode)
+            if bd is not None and bd.get("decl") in self.const_arrays:
+                try:
+                    iv = tr.conv(n["c"][1] if k == "ArraySubscriptExpr" else n["args"][1])
+                except Unconvertible:
+                    iv = None
+                tab = self.const_arrays[bd["decl"]]
+                if iv is not None and iv.is_Integer and 0 <= int(iv) < len(tab):
+                    return tab[int(iv)]
         if k == "ArraySubscriptExpr":
             base, idx = self._subscript_chain(n)
             if base is None:
@@ -788,6 +810,14 @@ class Scanner:
                     pa = self._pointer_into(d["init"])
                     if pa is not None:
                         self.ptr_alias[d["decl"]] = pa
+                if "init" in d and (d.get("ctype") or "").startswith("const ") and ("std::array<" in (d.get("ctype") or "") or "[" in (d.get("ctype") or "")) and \
+                        self.assigned.get(d["decl"], 0) == 0:
+                    il_ = [y for y in A.walk(d["init"]) if y.get("k") == "InitListExpr"]
+                    if il_:
+                        inner_ = il_[-1]
+                        vals_ = [self._try(e_) for e_ in inner_.get("inits", [])]
+                        if vals_ and all(v_ is not None for v_ in vals_):
+                            self.const_arrays[d["decl"]] = vals_        # a table of constants: t[k] with constant k is its k-th entry
                 is_ref = _is_lref(d.get("type")) or _is_lref(d.get("ctype")) or \
                     any(t_ in (d.get("ctype") or "") for t_ in ("multi_array::sub_array", "multi_array::const_sub_array", "multi_array::multi_array_view"))
                 # (a boost sub_array is a view: a value type that aliases the rows it was taken from)
